@@ -500,6 +500,13 @@ impl Simk {
         }
     }
 
+    /// Ring 0 exists and its descriptor is still open (once a10 has closed it the kernel thread is
+    /// gone and whatever it had not consumed is discarded).
+    pub fn ring0_open(&mut self) -> bool {
+        self.sync_closed_rings();
+        !self.rings.is_empty() && !self.rings[0].closed
+    }
+
     pub fn ring_by_fd(&mut self, fd: i32) -> Option<usize> {
         self.sync_closed_rings();
         self.rings.iter().position(|r| r.fd == fd && !r.closed)
@@ -1982,7 +1989,10 @@ unsafe fn k_enter(
                     k.rings[ring].sq_thread_idle = false;
                     k.rings[ring].set_sq_flag(SQ_NEED_WAKEUP, false);
                 }
-                if !k.sqpoll_manual {
+                // Under the schedule explorer the sq-thread is an actor; for callers outside it (the
+                // sequential explorer, the judges' epilogues) the thread catches up at every enter.
+                let by_actor = k.sqpoll_manual && crate::schx::managed();
+                if !by_actor && !k.rings[ring].sq_thread_idle {
                     let n = k.rings[ring].sq_pending();
                     k.consume(ring, n);
                 }
